@@ -28,7 +28,7 @@ def P(**kw):
 PROPS = {
     "C01": P(
         technique="Lean 4 theorems (induction over byte lists / chunk lists) + differential correspondence model vs implementation",
-        level_text="Proof of the data transformations every message goes through, for all inputs: word-at-a-time masking = RFC byte-wise masking for every alignment/key/offset/length, masking involutive and offset-carrying across splits, truncWriter forwards all but the last 4 bytes for every chunking, strict frame decode inverts the writer's encode for every length < 2^63; the per-message round trip over the writer model (any buffer size, any split of writes, controls in between) and the reader's decoding of any conformant fragmentation are C02.message_roundtrip / C03.read_message. Tie: random write programs and random conformant streams run on the real package and on the compiled model, wire bytes and delivered bytes compared exactly; an independent RFC decoder/inflater judges sent vs delivered.",
+        level_text="Proof of the data transformations every message goes through, for all inputs: word-at-a-time masking = RFC byte-wise masking for every alignment/key/offset/length, masking involutive and offset-carrying across splits, truncWriter forwards all but the last 4 bytes for every chunking, strict frame decode inverts the writer's encode for every length < 2^63; the constructor always leaves room for a control frame (F4 repair) so a ping/pong of at most 125 bytes through WriteMessage is accepted and is exactly one control frame; the per-message round trip over the writer model (any buffer size, any split of writes, controls in between) and the reader's decoding of any conformant fragmentation are C02.message_roundtrip / C03.read_message. Tie: random write programs and random conformant streams run on the real package and on the compiled model, wire bytes and delivered bytes compared exactly; an independent RFC decoder/inflater judges sent vs delivered.",
         level_note="compress/flate and encoding/json are parameters; end-to-end composition through a real connected pair is checked by correspondence (stream pair), the theorem composition is per side.",
         lean=["WS.Props.C01"],
         streams=[("w", 500, 12000), ("rconf", 500, 12000), ("unit", 300, 6000), ("pair", 150, 3000)],
@@ -36,7 +36,7 @@ PROPS = {
     ),
     "C02": P(
         technique="Lean 4 invariant proof over all write programs (induction over the operation list) + strict RFC decoder spec + differential correspondence",
-        level_text="Proof: for every program over the write API, every buffer size, role, pool and compression setting and every environment answer, the wire of a fault-free connection is a concatenation of frames that the strict RFC 6455 decoder (written from the RFC in WS/Spec/Frame.lean; non-minimal lengths are undecodable) accepts, masked iff client; frame-record level well-formedness (RSV bits, fragmentation grammar, control frames) and payload content are WS.Lemmas.WireWF / Content. Tie: exact wire bytes of the real package vs the model on random programs incl. prepared messages, compression toggles, pools; independent Go RFC decoder + inflater on the real wire.",
+        level_text="Proof: for every program over the write API, every buffer size, role, pool and compression setting and every environment answer, the wire of a fault-free connection is a concatenation of frames that the strict RFC 6455 decoder (written from the RFC in WS/Spec/Frame.lean; non-minimal lengths are undecodable) accepts, masked iff client; frame-record level well-formedness (RSV bits, fragmentation grammar, control frames) and payload content are WS.Lemmas.WireWF / Content; a compressed message is exactly one RSV1 message whose payload is the deflate stream minus its tail, however flate chunks its output; every client frame takes the next draw of the key source (key_per_frame) and servers never mask. Tie: exact wire bytes of the real package vs the model on random programs incl. prepared messages, compression toggles, pools; independent Go RFC decoder + inflater on the real wire.",
         level_note="crypto/rand quality is not modelled (site inventory pins newMaskKey/maskRand uses); flate output is an environment answer validated against the trunc spec. Finding F8 (prepared data message while a writer is open) excluded from the grammar theorem and recorded.",
         lean=["WS.Props.C02"],
         streams=[("w", 800, 16000), ("wclose", 300, 6000), ("wf8", 150, 2000)],
@@ -52,7 +52,7 @@ PROPS = {
     ),
     "C04": P(
         technique="Lean 4 proof of the header decision logic over the full header alphabet + decide over the regenerated check list + differential correspondence",
-        level_text="Proof: the reader's header check reports an error exactly for the violations the property lists (all b0/b1, both roles, negotiated or not, idle or mid-message); the accepted close codes are exactly 1000-1003, 1007-1013, 3000-4999 (table regenerated from conn.go); the list of checks recognised in today's advanceFrame equals the modelled one (decide). Tie: every violation class injected after random conformant prefixes, in both protocol states, on the real package and the model (errors, 1002 frames, handler logs compared exactly); oracle: nothing after the violation surfaces, same error twice, 1002 written.",
+        level_text="Proof: the reader's header check reports an error exactly for the violations the property lists (all b0/b1, both roles, negotiated or not, idle or mid-message); the accepted close codes are exactly 1000-1003, 1007-1013, 3000-4999 (table regenerated from conn.go); the list of checks recognised in today's advanceFrame equals the modelled one (decide); at the API: after any conformant history the NextReader call (idle) or the Read call (inside a fragmented message) that meets the violating frame returns the protocol error with zero bytes, invokes no handler, latches the error and writes exactly one 1002 close frame. Tie: every violation class injected after random conformant prefixes, in both protocol states, on the real package and the model (errors, 1002 frames, handler logs compared exactly); oracle: nothing after the violation surfaces, same error twice, 1002 written.",
         level_note="RSV1 on control/continuation frames while negotiated is accepted by the code and is not in the property's list; a 1-byte close body is treated as no body.",
         lean=["WS.Props.C04"],
         streams=[("rviol", 800, 16000)],
@@ -60,15 +60,15 @@ PROPS = {
     ),
     "C05": P(
         technique="Lean 4 proof over the bufio model (all cuts, all chunkings) + fault enumeration by differential correspondence",
-        level_text="Proof at the source level: a header or skipped remainder that did not fully arrive is an error (EOF mapped to 1006), never a short result; delivered bytes are a prefix in order; the terminal error repeats. Tie/fault enumeration: random streams cut at random and boundary offsets with EOF / error / timeout, error alone or together with the last bytes, all chunkings, explicit read sizes; model predicts every result incl. bufio pass-through effects; oracle: a message reported complete lies wholly before the cut and is byte-identical; errors are permanent.",
-        level_note="Finding F1 (EOF together with the last bytes of a non-final frame makes a truncated message look complete) is a genuine defect, listed in KNOWN_FINDINGS.txt with its signature.",
+        level_text="Proof at the message level (cut_never_complete): the transport ends — EOF, error or timeout, alone or together with the last bytes — at ANY byte offset strictly inside a conformant message of any fragmentation with interleaved controls, for any chunking, buffer size and read size: the message is never reported complete; NextReader fails or the message reader fails with a non-EOF error after delivering only a prefix of the payload (on reachable states; the 1000th-call panic is explicit otherwise); a message that did arrive whole is reported complete and byte-identical. Proof at the source level: a header or skipped remainder that did not fully arrive is an error (EOF mapped to 1006), never a short result; the terminal error repeats. Tie/fault enumeration: random streams cut at random and boundary offsets with EOF / error / timeout, error alone or together with the last bytes, all chunkings, explicit read sizes; model predicts every result incl. bufio pass-through effects; oracle: a message reported complete lies wholly before the cut and is byte-identical; errors are permanent.",
+        level_note="Finding F1 (EOF together with the last bytes of a non-final frame made a truncated message look complete) was repaired (fix: f91fac9); the theorem is about the repaired reader and the rcut stream is its regression sentinel. Theorems cover uncompressed messages; a cut inside a compressed message is covered by correspondence (flate reports unexpected EOF).",
         lean=["WS.Props.C05"],
         streams=[("rcut", 800, 20000)],
         assumptions=[ASSUME_BUFIO],
     ),
     "C06": P(
         technique="Lean 4 theorems over the reader model (running sum with int64 wrap-around, all sources) + differential correspondence around the limit",
-        level_text="Proof: the frame whose header makes the running sum exceed the limit is refused before any payload byte is consumed, with ErrReadLimit and a 1009 close frame; a message whose data frames sum to at most L is read in full whatever its fragmentation, interleaved controls and read sizes (limit_admits, from C03.read_message); a new text/binary frame restarts the sum, so what the application did with earlier messages does not matter (regression sentinel for F2); a top-bit length is refused the same way with a 1009 (F3). Tie: limits chosen at message size -1/0/+1, fragmentations crossing at any frame, abandon points, huge and negative 64-bit lengths (rfuzz), on the real package and the model.",
+        level_text="Proof: the frame whose header makes the running sum exceed the limit is refused before any payload byte is consumed, with ErrReadLimit and a 1009 close frame; a message whose data frames sum to at most L is read in full whatever its fragmentation, interleaved controls and read sizes (limit_admits, from C03.read_message); a new text/binary frame restarts the sum, so what the application did with earlier messages does not matter (regression sentinel for F2); a top-bit length is refused the same way with a 1009 (F3); the same at the API for NextReader (idle) and for Read inside a fragmented message (the continuation that takes the running sum over the limit), and an accepted frame adds exactly its length to the sum. Tie: limits chosen at message size -1/0/+1, fragmentations crossing at any frame, abandon points, huge and negative 64-bit lengths (rfuzz), on the real package and the model.",
         level_note="Memory: the model has no allocator; the claim rests on the structure (Peek of at most 125 bytes, Read into the caller's buffer, Discard in 8 KiB steps) pinned by the make/index site inventory, plus a TotalAlloc bound measured in the fuzz stream.",
         lean=["WS.Props.C06"],
         streams=[("rlimit", 900, 16000), ("rfuzz", 400, 8000)],
@@ -116,7 +116,7 @@ PROPS = {
     ),
     "C12": P(
         technique="Lean 4 theorems over the decision function of Upgrade + decide over the regenerated rejection chain + differential correspondence with grammar-level oracles",
-        level_text="Proof: Upgrade succeeds iff every condition of the chain holds; 403 exactly for the origin, 426 (with the Connection token present) exactly for a missing Upgrade token; compression is announced iff enabled and an extension named permessage-deflate was offered; the selected subprotocol was offered and is supported; whatever bytes the application supplies as header values or subprotocol the 101 has exactly the expected lines (no_injection, incl. the F5 fix); Accept = base64(SHA-1(key++GUID)) with the GUID of today's source (RFC vector checked in the kernel); the rejection chain recognised in today's Upgrade is the modelled one. Tie: handshakes from the grammar (OWS, case, extra tokens, several lines, near-miss tokens, malformed lists, keys of many decoded lengths, offers with parameters and quoted strings), all Upgrader settings, response headers with control bytes; model predicts status / 101 lines / reader and buffer choice exactly; oracle judges with an independent list grammar, SHA-1 and line splitter.",
+        level_text="Proof: Upgrade succeeds iff every condition of the chain holds; 403 exactly for the origin, 426 (with the Connection token present) exactly for a missing Upgrade token; compression is announced iff enabled and an extension named permessage-deflate was offered; the selected subprotocol was offered and is supported; whatever bytes the application supplies as header values or subprotocol the 101 has exactly the expected lines (no_injection, incl. the F5 fix); Accept = base64(SHA-1(key++GUID)) with the GUID of today's source (RFC vector checked in the kernel); the rejection chain recognised in today's Upgrade is the modelled one; the header list scanner is sound on arbitrary bytes (a reported token is an OWS-trimmed comma-separated element equal under ASCII folding) and complete on well-formed 1#token lists. Tie: handshakes from the grammar (OWS, case, extra tokens, several lines, near-miss tokens, malformed lists, keys of many decoded lengths, offers with parameters and quoted strings), all Upgrader settings, response headers with control bytes; model predicts status / 101 lines / reader and buffer choice exactly; oracle judges with an independent list grammar, SHA-1 and line splitter.",
         level_note="net/http (hijack, http.Error) and url.Parse are environment; header *names* supplied by the application are outside the property; on non-well-formed token lists only soundness is claimed.",
         lean=["WS.Props.C12"],
         streams=[("srv", 1500, 30000), ("unit", 300, 6000)],
@@ -130,14 +130,14 @@ PROPS = {
     ),
     "C14": P(
         technique="Lean 4 theorems over the reply decision and request assembly + decide over regenerated check lists + differential correspondence",
-        level_text="Proof: the reply is accepted iff status 101, Upgrade/Connection tokens and Accept = digest of the key sent in this request (and an acceptable compression answer); an Accept computed for another key is refused; non-ws/wss schemes and userinfo are refused before anything is assembled; a caller header naming a protocol-owned header (any capitalisation, F9 fix) is refused; the disjuncts of today's DialContext are the modelled ones. Tie: scripted servers with status/header/Accept/body variations, URLs, Dialer settings, caller header maps; request bytes parsed by an independent splitter and compared with the model's header set; reply decision compared.",
+        level_text="Proof: the reply is accepted iff status 101, Upgrade/Connection tokens and Accept = digest of the key sent in this request (and an acceptable compression answer); an Accept computed for another key is refused; non-ws/wss schemes and userinfo are refused before anything is assembled; a caller header naming a protocol-owned header (any capitalisation, F9 fix) is refused; the disjuncts of today's DialContext are the modelled ones; whenever a request is assembled it carries Upgrade: websocket, Connection: Upgrade, this dial's key and version 13, the permessage-deflate offer iff compression is enabled, and Host from the URL unless overridden. Tie: scripted servers with status/header/Accept/body variations, URLs, Dialer settings, caller header maps; request bytes parsed by an independent splitter and compared with the model's header set; reply decision compared.",
         level_note="http.Request.Write, http.ReadResponse, url.Parse and crypto/rand are environment (parsed reply and observed key are inputs).",
         lean=["WS.Props.C14"],
         streams=[("cli", 1500, 30000)],
     ),
     "C15": P(
         technique="Lean 4 theorems + decide over the literals regenerated from client.go/server.go + exhaustive 2x2 correspondence with message exchange",
-        level_text="Proof: server compresses iff enabled and permessage-deflate offered; client compresses iff the reply carries it (both parameters required, else Dial fails: C14.dial_iff); the offer literal of today's Dialer makes an enabled Upgrader compress and the announcement literal of today's Upgrader is accepted by the Dialer (decide over regenerated literals); RSV1 is a violation exactly when not negotiated. Tie: all four (Dialer, Upgrader) settings through a real handshake of the two in-process, then messages in both directions with random EnableWriteCompression / SetCompressionLevel toggles; offer and reply variants in the srv / cli streams.",
+        level_text="Proof: server compresses iff enabled and permessage-deflate offered; client compresses iff the reply carries it (both parameters required, else Dial fails: C14.dial_iff); the offer literal of today's Dialer makes an enabled Upgrader compress and the announcement literal of today's Upgrader is accepted by the Dialer (decide over regenerated literals); RSV1 is a violation exactly when not negotiated; with compression on a message is one RSV1+deflate message and after EnableWriteCompression(false) the next one is plain (toggle_safe). Tie: all four (Dialer, Upgrader) settings through a real handshake of the two in-process, then messages in both directions with random EnableWriteCompression / SetCompressionLevel toggles; offer and reply variants in the srv / cli streams.",
         level_note="flate is environment; toggling safety beyond the exchanged messages rests on C02 (each message is plain or RSV1+deflate) and C03.",
         lean=["WS.Props.C15"],
         streams=[("nego", 200, 4000), ("srv", 400, 8000), ("cli", 400, 8000), ("pair", 150, 3000)],
@@ -153,7 +153,7 @@ PROPS = {
     ),
     "C17": P(
         technique="Lean 4 theorem over brNetConn (all read-size sequences) composed with the bufio stream law + split enumeration by differential correspondence",
-        level_text="Proof: for every buffered prefix and every sequence of read sizes brNetConn serves exactly the buffered bytes, in order, never more than buffered or asked for, and switches to the socket exactly when the buffer is empty; Upgrade's choice of reader covers all cases (reuse / wrap / nothing buffered); with C03's stream law the Conn's source is buffered ++ socket. Tie: frame streams split at random k between a hijacked bufio.Reader (sizes 16/256/257/4096) and the socket, ReadBufferSize in {0,1,255,256,4096}, random socket chunkings; client: '101 + frames' in every chunking with the connection's own bufio consuming the header block line by line (modelled); delivered messages compared exactly.",
+        level_text="Proof: for every buffered prefix and every sequence of read sizes brNetConn serves exactly the buffered bytes, in order, never more than buffered or asked for, and switches to the socket exactly when the buffer is empty; Upgrade's choice of reader covers all cases (reuse / wrap / nothing buffered); with C03's stream law the Conn's source is buffered ++ socket; client side: reading the 101 header block line by line (ReadSlice) from the connection's own bufio.Reader consumes exactly the header lines for every chunking and buffer size, so the first frame starts at the byte after the empty line. Tie: frame streams split at random k between a hijacked bufio.Reader (sizes 16/256/257/4096) and the socket, ReadBufferSize in {0,1,255,256,4096}, random socket chunkings; client: '101 + frames' in every chunking with the connection's own bufio consuming the header block line by line (modelled); delivered messages compared exactly.",
         level_note="http.ReadResponse's consumption is modelled as line-wise ReadSlice; net/http's own buffering before the hijack is environment.",
         lean=["WS.Props.C17"],
         streams=[("glue", 1500, 30000)],
@@ -177,8 +177,8 @@ PROPS = {
     ),
     "C20": P(
         technique="Lean 4 invariant proof over all write programs and fault scripts + differential correspondence with a poisoning pool",
-        level_text="Proof: for every program (invalid requests, abandoned writers) and every transport fault script on a pooled connection, Get/Put are balanced, a buffer is held only while a message writer is live, at most one writer is live, nothing is held between messages and no nil buffer is ever put back. Tie: instrumented LIFO pool shared by 1-4 connections that poisons buffers on Put and checks the poison on Get; Get/Put log (with buffer identities) compared with the model exactly; wire of every sharing connection judged by the RFC decoder.",
-        level_note="Theorem for connections without negotiated compression (with compression the invariant needs consistency of the flate answers; that part is covered by correspondence only). Concurrent sharing relies on the pool's own synchronisation (sync.Pool).",
+        level_text="Proof: for every program (invalid requests, abandoned writers) and every transport fault script on a pooled connection — without compression unconditionally (pool_balance), with permessage-deflate negotiated for every execution whose compress/flate answers are consistent (pool_balance_compression; consistency is checked on every correspondence run) — Get/Put are balanced, a buffer is held only while a message writer is live, at most one writer is live, nothing is held between messages and no nil buffer is ever put back. Tie: instrumented LIFO pool shared by 1-4 connections that poisons buffers on Put and checks the poison on Get; Get/Put log (with buffer identities) compared with the model exactly; wire of every sharing connection judged by the RFC decoder.",
+        level_note="Independent oracle in the streams: after every API call the pool's outstanding buffers (Get calls minus Put calls) equal the number of messages in progress. Concurrent sharing relies on the pool's own synchronisation (sync.Pool); the conc stream runs it under the race detector.",
         lean=["WS.Props.C20"],
         streams=[("w", 600, 10000), ("wfault", 400, 8000), ("conc", 60, 1000)],
         race=[("conc", 300)],
